@@ -616,7 +616,16 @@ def gen_multi(r, k, T):
          "  keepHills %s" % r.choice(["on", "off"]), "}",
          "harmonicWalls {", "  name w", "  colvars v0", "  lowerWalls -3.0", "  upperWalls 3.0", "  forceConstant 1.0",
          "  targetForceConstant 4.0", "  targetNumSteps 3", "  targetNumStages 2", "}"]
-    return {"fam": "multi", "tags": ["multi", "2cv+5biases"], "sigtags": [], "natoms": 2, "setup": ["temperature 300.0"],
+    tags = ["multi", "2cv+5biases"]
+    if r.random() < 0.6:
+        # several holders of the same thing: three more moving restraints of one kind on the same variable, without
+        # names (harmonic2, harmonic3, ... by rank), the odd one in the middle; a second, unnamed histogram
+        for n, k in ((5, 1.0), (7, 0.5), (5, 1.0)):
+            B += ["harmonic {", "  colvars v0", "  forceConstant %r" % k, "  centers %r" % V.dyadic(r, -2, 2, bits=2),
+                  "  targetCenters %r" % V.dyadic(r, -2, 2, bits=2), "  targetNumSteps %d" % n, "  outputAccumulatedWork on", "}"]
+        B += ["histogram {", "  colvars v1", "}"]
+        tags = ["multi", "2cv+9biases", "unnamed"]
+    return {"fam": "multi", "tags": tags, "sigtags": [], "natoms": 2, "setup": ["temperature 300.0"],
             "config": cfg + B, "it0": first_step(r, [0, 4]), "pos": walk(r, T, 2, lo=-2.5, hi=2.5, bits=3), "shuffle": True}
 
 
